@@ -179,6 +179,16 @@ def _body(case, res: core.Res):
     return fails
 
 
+def frequency_floor(bucket: str, evaluations: int = 0) -> int:
+    """The base dialect is strict (one hit). In the other dialects an uncatalogued (dialect, kind, construct) cell is a violation when
+    it is reached at a rate >= 1e-4 of the run's round trips (and >= 3 times): three 3.5M-case campaigns on the unchanged tree keep finding
+    new cells at rates of 1e-6..1e-5 (a long tail of dialect-specific first-pass rewrites), whereas every seeded or repaired defect sat
+    at >= 1e-3. Rarer cells are listed in coverage.uncatalogued_rare_buckets with their replay files."""
+    if bucket.startswith("base|") or bucket.startswith("harness|"):
+        return 1
+    return max(3, int(evaluations * 1e-4))
+
+
 def plan(tier):
     if tier == "quick":
         return [{"n": 90, "depth": 3}] * 16
